@@ -34,6 +34,12 @@ def build():
     C = ContractSet("C04", "Ball counts agree with the physical machine and are conserved")
     C.strings = False
     common.declare_events(C)
+    C.finite_checks.append(common.native_demo_check(
+        'c04_two_sources_one_free_slot.py',
+        'two sources never fire at a one-ball target at the same time'))
+    C.finite_checks.append(common.native_demo_check(
+        'c04_double_eject_negative_available.py',
+        'no count - available_balls included - goes negative when one pulse ejects two balls'))
 
     def post_relay(I, env, a, k):
         emit(I, "post", kind="post_relay", event=a[0] if a else k.get("event"),
